@@ -708,6 +708,11 @@ pub fn contract_named_bits<C: Ctx>(cx: &mut C) {
 #[cfg(not(kani))]
 pub use crate::intermediate::encoding_rules::per_visible::verif_hook::{hook_compare_optional, hook_default_unsigned, hook_fold_constraint_set, hook_range_from_constraint, hook_range_from_element, hook_intersect_single_and_range, hook_union_optional, hook_union_single_and_range};
 pub fn hook_needs_unnesting(ty: &ASN1Type) -> bool { crate::generator::rasn::Rasn::needs_unnesting(ty) }
+#[cfg(not(kani))]
+pub fn hook_fixed_size(bits: bool, constraints: Vec<crate::intermediate::constraints::Constraint>) -> Option<usize> {
+    use crate::intermediate::types::*;
+    if bits { BitString { constraints, distinguished_values: None }.fixed_size() } else { OctetString { constraints }.fixed_size() }
+}
 pub fn hook_named_lookup(tld: &crate::intermediate::ToplevelDefinition, type_name: Option<&String>, identifier: &String) -> Option<ASN1Value> { tld.get_distinguished_or_enum_value(type_name, identifier) }
 pub fn hook_has_enum_value(tld: &crate::intermediate::ToplevelDefinition, type_name: Option<&String>, identifier: &String) -> bool { tld.has_enum_value(type_name, identifier) }
 pub fn hook_apply_tagenv_type(ty: &mut ASN1Type, env: &crate::intermediate::TaggingEnvironment) { ty.apply_tagging_environment(env) }
@@ -747,6 +752,7 @@ pub fn replay_bounded(unit: &str) -> Option<i32> {
         "b_c14_pipeline_enumerated" => run_grid(unit, contract_pipeline_enumerated_quick, limit),
         "b_c14_pipeline_enumerated_full" => run_grid(unit, contract_pipeline_enumerated_full, limit),
         "b_c02_parameterized_components" => run_grid(unit, contract_parameterized_components, limit),
+        "b_pipeline_cases" => run_grid(unit, cases::contract_pipeline_cases, limit),
         "b_c14_large_numbers" => run_grid(unit, contract_enumerated_large_numbers, limit),
         "b_c02_nested_collections" => run_grid(unit, contract_generate_nested_collections, limit),
         "b_c03_tagged_assignment" => run_grid(unit, contract_generate_tagged_assignment, limit),
@@ -3465,3 +3471,5 @@ pub fn contract_generate_extension_group<C: Ctx>(cx: &mut C) {
     #[cfg(kani)]
     { let _ = cx; }
 }
+
+include!(concat!(env!("LIBRASN_VERIF_DIR"), "/hooks/cases.rs"));
